@@ -22,12 +22,33 @@ CONFIG = {
              "command ran on a world that has a history or wrote something."),
 }
 
-WEIGHTS = {"p_create": 0.3, "p_edit": 0.2, "p_ro": 0.35, "nested": 0.5, "sf": 0.25, "n": 0.15, "dr": 0.15, "i": 0.2}
+WEIGHTS = {"p_create": 0.3, "p_edit": 0.2, "p_ro": 0.35, "nested": 0.5, "sf": 0.25, "n": 0.15, "dr": 0.3, "i": 0.3}
 READ_ONLY = ("verify", "diff", "info", "hash", "xsd-schema-check")
 
 
 def generate(rng, tier):
     sc = explore.generate(rng, tier, WEIGHTS, hostile=0.15)
+    if rng.random() < 0.08:
+        # a nested history that the parent ignores from some generation on, together with -dr / -n / new files: the
+        # ignored history is out of scope and must not be touched
+        from .. import gen
+
+        tree = sc["world"]["tree"]
+        tree.setdefault("skipme", {"t": "d"})
+        tree.setdefault("skipme/s.bin", {"t": "f", "c": gen.unique_content(rng)})
+        fm = gen.fmt_args(gen.pick_formats(rng, 1, 2))
+        tail = [scen.cmd("create", "@R/skipme", *fm), {"op": "advance", "us": 1_000_000}, scen.cmd("create", "@R", *fm),
+                {"op": "advance", "us": 1_000_000}]
+        if rng.random() < 0.7:
+            tail.append({"op": "write", "path": "fresh_%d.bin" % rng.randrange(99), "c": gen.unique_content(rng), "fault": "add_file"})
+        if rng.random() < 0.4:
+            files = gen.tree_files(tree)
+            src = rng.choice([f for f in files if not f.startswith("skipme/")] or files)
+            tail.append({"op": "rename", "src": src, "dst": src + ".moved", "fault": "rename_file"})
+        flags = [x for x in ("-dr", "-n", "-v") if rng.random() < 0.6]
+        tail.append(scen.cmd("create", "@R", *fm, "-i", rng.choice(["skipme", "skipme/"]), *flags))
+        tail.append(scen.cmd("create", "@R", *fm, *[x for x in ("-dr",) if rng.random() < 0.5]))
+        sc["ops"] += tail
     # sometimes damage a manifest / chain late in the run so that commands fail with 31/32/33
     if rng.random() < 0.25 and len(sc["ops"]) > 3:
         at = rng.randrange(2, len(sc["ops"]))
